@@ -599,3 +599,24 @@ Example example_run :
   | _, _ => False
   end.
 Proof. vm_compute. repeat split; reflexivity. Qed.
+
+(* a closed process no longer receives anything, in every run: an RPC is unroutable, a broadcast is not delivered *)
+Theorem closed_receives_nothing : forall c es xw, x_run c es = Some xw -> closed (base xw) = true ->
+  (forall m, x_step xw (XSendRpc m) = xw <| replies := replies xw ++ [RpUnroutable] |>) /\
+  (forall b, x_step xw (XSendBc b) = xw).
+Proof.
+  intros c es xw H Hc.
+  destruct (reachable_subscriptions c es xw H) as [[Hf _] | [_ [_ [_ [Hr Hb]]]]]; [congruence|].
+  split; intros; [apply send_rpc_unsubscribed | apply send_bc_unsubscribed]; assumption.
+Qed.
+
+(* ... and an open one receives everything that is not one of the state-change announcements *)
+Theorem open_receives : forall c es xw, x_run c es = Some xw -> closed (base xw) = false ->
+  (forall m, x_step xw (XSendRpc m) =
+             xw <| inflight := inflight xw ++ [XmRpc (List.length (replies xw)) m] |> <| replies := replies xw ++ [RpPending] |>) /\
+  (forall b, bc_filtered (b_subject b) = false -> x_step xw (XSendBc b) = xw <| inflight := inflight xw ++ [XmBc b] |>).
+Proof.
+  intros c es xw H Hc.
+  destruct (reachable_subscriptions c es xw H) as [[_ [_ [_ [Hr Hb]]]] | [Hf _]]; [|congruence].
+  split; intros; cbn; [rewrite Hr | rewrite Hb, H0]; reflexivity.
+Qed.
